@@ -1,5 +1,6 @@
 import PMV.Model.WF
 import PMV.Lemmas.WFCtor
+import PMV.Lemmas.WFOps
 /-
   C05 — every object the API hands back is structurally well-formed.
 -/
@@ -128,26 +129,20 @@ theorem ctor_wf_partial (i : CtorIn) (o : ObjDump) (hd : derivsGiven i = false) 
   split at h
   · cases h
   · rename_i b hb
-    unfold derivsGiven at hd
-    cases hid : i.derivs with
-    | some l =>
-      have hl : l = [] := by simpa [hid] using hd
-      simp only [hid, hl, insertDerivs] at h
-      cases h; exact ctorCore_wf i b hb
-    | none =>
-      cases hia : i.arg with
-      | qube a =>
-        have hl : a.derivs = [] := by simpa [hid, hia] using hd
-        simp only [hid, hia, hl, insertDerivs] at h
-        cases h; exact ctorCore_wf i b hb
-      | val a =>
-        simp only [hid, hia, insertDerivs] at h
-        cases h; exact ctorCore_wf i b hb
-      | bad =>
-        simp only [hid, hia, insertDerivs] at h
-        cases h; exact ctorCore_wf i b hb
--- FULL (ctor_wf): ∀ i o, (∀ d ∈ derivatives handed in, WF d) → ctor i = some o → WF o.
--- Not proved: needs the general `insertDeriv_wf` (conversion to float / broadcast through `ctorCore`), see below.
+    have e : ctorDerivs i = [] := by
+      unfold derivsGiven at hd
+      unfold ctorDerivs
+      cases hid : i.derivs with
+      | some l => simpa [hid] using hd
+      | none =>
+        cases hia : i.arg with
+        | qube a => simpa [hid, hia] using hd
+        | val a => rfl
+        | bad => rfl
+    simp only [e, insertDerivs] at h
+    cases h
+    exact ctorCore_wf i b hb
+-- (the full `ctor_wf`, with derivatives, is proved below, after `insertDeriv_wf`)
 
 example : (ctor ⟨.vector3, .val ⟨true, [2, 3], .int, false⟩, .arr [1] true true, some [], .some, none, none, none, none⟩).map (·.body)
     = some ({ cls := .vector3, kind := .float, varr := true, vshape := [2, 3], vwritable := true,
@@ -254,12 +249,26 @@ theorem bodyReadonly_ok {b : Body} {h : Bool} (hb : bodyOk b h = true) : bodyOk 
     · unfold roArraysOk
       cases hv : b.varr <;> cases hm : b.mask <;> simp [maskToReadonly]
 
-/-- `insert_deriv` of a derivative that is already float and has the parent's shape (no conversion, no broadcast):
-    either raises or leaves a well-formed parent.  This is the path every re-insertion by clone / copy /
-    without_deriv / __setstate__ takes. -/
-theorem insertDeriv_wf_partial (p d : ObjDump) (key : String) (ov : Bool) (r : ObjDump)
-    (hp : WF p = true) (hd : WF d = true) (hf : d.body.kind = .float) (hs : d.body.shape = p.body.shape)
-    (h : insertDeriv p key d ov = some r) : WF r = true := by
+/-- a read-only float Scalar of shape (2,3) and an int Scalar of shape (3,) with a derivative of its own -/
+def startP : ObjDump :=
+  bare { cls := .scalar, kind := .float, varr := true, vshape := [2, 3], vwritable := false,
+         mask := .scalar false, shape := [2, 3], numer := [], denom := [], item := [], rank := 0, nrank := 0, drank := 0,
+         size := 6, isize := 1, nsize := 1, dsize := 1, dshape := [], dkind := .float, units := false,
+         readonly := true, complete := true }
+def startD0 : Body :=
+  { cls := .scalar, kind := .int, varr := true, vshape := [3], vwritable := true,
+    mask := .array [3] true true, shape := [3], numer := [], denom := [], item := [], rank := 0, nrank := 0, drank := 0,
+    size := 3, isize := 1, nsize := 1, dsize := 1, dshape := [], dkind := .int, units := false,
+    readonly := false, complete := true }
+def startD : ObjDump :=
+  ⟨startD0, [("x", bare { startD0 with kind := .float, dkind := .float })], [("x", true)]⟩
+
+/-- `insert_deriv_wf`: `insert_deriv(key, deriv, override)` on a well-formed object with a well-formed derivative
+    either raises (object unchanged) or leaves a well-formed object — whatever class, kind, shape, read-only state
+    the derivative has: nested derivatives are stripped, ints converted to float through the constructor, the shape
+    broadcast, the read-only state matched, and attribute and dictionary entry set together. -/
+theorem insertDeriv_wf (p d : ObjDump) (key : String) (ov : Bool) (r : ObjDump)
+    (hp : WF p = true) (hd : WF d = true) (h : insertDeriv p key d ov = some r) : WF r = true := by
   unfold insertDeriv at h
   split at h
   · cases h
@@ -271,42 +280,98 @@ theorem insertDeriv_wf_partial (p d : ObjDump) (key : String) (ov : Bool) (r : O
   · cases h
   split at h
   · cases h
-  have e1 : asFloat (cloneBare d) = some (cloneBare d) := by simp [asFloat, cloneBare, bare, hf]
-  rw [e1] at h
-  simp only [] at h
-  have hdb : bodyOk d.body false = true := bodyOk_false_of ((wf_iff d).1 hd).1
   have hok' : (classInfo p.body.cls).derivsOk = true := by simpa using hok
   have hn' : p.body.numer = d.body.numer := by simpa using hn
-  have e2 : (if ((cloneBare d).body.shape != p.body.shape) = true then broadcastTo (cloneBare d) p.body.shape
-      else some (cloneBare d)) = some (cloneBare d) := by
-    simp [cloneBare, bare, hs]
-  rw [e2] at h
-  simp only [Option.some.injEq] at h
-  subst h
+  have hdb : bodyOk (cloneBare d).body (!d.derivs.isEmpty) = true := ((wf_iff d).1 hd).1
+  split at h
+  · cases h
+  rename_i d1 h1
+  obtain ⟨a1, a2, a3, a4, a5⟩ := asFloat_ok hdb rfl h1
+  split at h
+  · cases h
+  rename_i d2 h2
+  -- after the broadcast
+  have hb2 : d2.body.kind = .float ∧ d2.body.shape = p.body.shape ∧ d2.body.numer = d.body.numer
+      ∧ bodyOk d2.body false = true := by
+    split at h2
+    · obtain ⟨b1, b2, b3, b4, -⟩ := broadcastTo_ok a4 a5 h2
+      exact ⟨by rw [b3, a1], b1, by rw [b2, a3]; rfl, b4⟩
+    · rename_i hs
+      cases h2
+      exact ⟨a1, by simpa using hs, by rw [a3]; rfl, a4⟩
+  obtain ⟨c1, c2, c3, c4⟩ := hb2
+  cases h
   apply store_deriv_wf p _ key hp hok'
+  simp only [derivOk, cloneBare, bare, Bool.and_eq_true, beq_iff_eq, List.isEmpty_nil, Bool.or_eq_true,
+    Bool.not_eq_true']
   split
-  · -- read-only parent, writable derivative: the clone is made read-only
-    have hs' : (bodyReadonly d.body).shape = p.body.shape := by
-      unfold bodyReadonly; split <;> simp [hs]
-    have hb := bodyReadonly_ok (h := false) hdb
-    simp only [derivOk, cloneBare, bare, Bool.and_eq_true, beq_iff_eq, List.isEmpty_nil, Bool.or_eq_true,
-      Bool.not_eq_true']
-    refine ⟨⟨⟨⟨⟨⟨?_, hs'⟩, ?_⟩, trivial⟩, trivial⟩, ?_⟩, hb⟩
-    · unfold bodyReadonly; split <;> simp [hf]
-    · unfold bodyReadonly; split <;> simp [hn']
-    · right; unfold bodyReadonly; split <;> simp_all
+  · obtain ⟨f1, f2, f3, f4, -⟩ := bodyReadonly_fields d2.body
+    refine ⟨⟨⟨⟨⟨⟨?_, ?_⟩, ?_⟩, trivial⟩, trivial⟩, Or.inr f4⟩, bodyReadonly_ok' c4⟩
+    · show (bodyReadonly d2.body).kind = Kind.float; rw [f3, c1]
+    · show (bodyReadonly d2.body).shape = p.body.shape; rw [f1, c2]
+    · show (bodyReadonly d2.body).numer = p.body.numer; rw [f2, c3, hn']
   · rename_i hro
-    simp only [derivOk, cloneBare, bare, Bool.and_eq_true, beq_iff_eq, List.isEmpty_nil, Bool.or_eq_true,
-      Bool.not_eq_true']
-    refine ⟨⟨⟨⟨⟨⟨hf, hs⟩, hn'.symm⟩, trivial⟩, trivial⟩, ?_⟩, hdb⟩
-    simp only [cloneBare, bare, Bool.and_eq_true, Bool.not_eq_true', not_and, Bool.not_eq_false] at hro
+    refine ⟨⟨⟨⟨⟨⟨c1, c2⟩, by rw [c3, hn']⟩, trivial⟩, trivial⟩, ?_⟩, c4⟩
+    simp only [Bool.and_eq_true, Bool.not_eq_true', not_and, Bool.not_eq_false] at hro
     cases hr : p.body.readonly
     · exact Or.inl rfl
     · exact Or.inr (hro hr)
--- FULL (insert_deriv_wf): ∀ p d key ov r, WF p → WF d → insertDeriv p key d ov = some r → WF r
--- (also when the derivative is converted by as_float and / or broadcast by broadcast_to, both of which go through
--- `ctorCore`).  Not proved: it needs "the constructor recovers shape/numer/denom of a well-formed example"
--- (take/drop over shape ++ numer ++ denom); `ctorCore_ok` already gives every per-object clause of the result.
+
+example : (insertDeriv startP "t" startD true).map WF = some true := by decide
+
+theorem insertDeriv_body (p d : ObjDump) (key : String) (ov : Bool) (r : ObjDump)
+    (h : insertDeriv p key d ov = some r) : r.body = p.body := by
+  unfold insertDeriv at h
+  repeat' split at h
+  all_goals first | (cases h; done) | (cases h; rfl)
+
+/-- `insert_derivs`: however far it gets before an insertion raises, the object stays well-formed -/
+theorem insertDerivs_wf (l : List (String × ObjDump)) (p : ObjDump) (ov : Bool) (r : ObjDump) (ok : Bool)
+    (hp : WF p = true) (hl : ∀ kd ∈ l, WF kd.2 = true) (h : insertDerivs p l ov = (r, ok)) :
+    WF r = true ∧ r.body = p.body := by
+  induction l generalizing p with
+  | nil => simp only [insertDerivs, Prod.mk.injEq] at h; rw [← h.1]; exact ⟨hp, rfl⟩
+  | cons kd t ih =>
+    obtain ⟨k, d⟩ := kd
+    simp only [insertDerivs] at h
+    cases hi : insertDeriv p k d ov with
+    | none => rw [hi] at h; simp only [Prod.mk.injEq] at h; rw [← h.1]; exact ⟨hp, rfl⟩
+    | some p' =>
+      rw [hi] at h
+      have hw := insertDeriv_wf p d k ov p' hp (hl (k, d) List.mem_cons_self) hi
+      obtain ⟨w1, w2⟩ := ih p' hw (fun x hx => hl x (List.mem_cons_of_mem _ hx)) h
+      exact ⟨w1, w2.trans (insertDeriv_body p d k ov p' hi)⟩
+
+/-- `ctor_wf`: for ANY raw input (class, argument, mask, units, ranks, example, default; derivatives and a Qube
+    argument being well-formed objects) the constructor model raises or returns a well-formed object. -/
+theorem ctor_wf (i : CtorIn) (o : ObjDump)
+    (hderivs : ∀ l, i.derivs = some l → ∀ kd ∈ l, WF kd.2 = true)
+    (harg : ∀ a, i.arg = .qube a → WF a = true)
+    (h : ctor i = some o) : WF o = true := by
+  unfold ctor at h
+  split at h
+  · cases h
+  · rename_i b hb
+    have hl : ∀ kd ∈ ctorDerivs i, WF kd.2 = true := by
+      unfold ctorDerivs
+      cases hid : i.derivs with
+      | some l => exact hderivs l hid
+      | none =>
+        cases hia : i.arg with
+        | qube a =>
+          intro kd hkd
+          exact ((wf_derivs (harg a hia)).1 kd hkd).2.2.2.2.2.2
+        | val a => intro kd hkd; cases hkd
+        | bad => intro kd hkd; cases hkd
+    generalize ctorDerivs i = L at h hl
+    cases hr : insertDerivs (bare b) L false with
+    | mk r ok =>
+      rw [hr] at h
+      cases ok with
+      | false => cases h
+      | true =>
+        cases h
+        exact (insertDerivs_wf L (bare b) false _ true (ctorCore_wf i b hb) hl hr).1
 
 /-! ### operations that preserve well-formedness -/
 
@@ -425,6 +490,49 @@ theorem asReadonly_wf (o : ObjDump) (ho : WF o = true) : WF (asReadonly o) = tru
       · right; unfold bodyReadonly; split <;> simp_all
     · simp only [attrsOk, Bool.and_eq_true, beq_iff_eq, List.map_map] at ha ⊢
       exact ⟨by simpa [Function.comp_def] using ha.1, ha.2⟩
+
+theorem bare_wf (b : Body) (hb : bodyOk b false = true) : WF (bare b) = true := by
+  rw [wf_iff]; exact ⟨hb, by simp [bare], by simp [bare, attrsOk]⟩
+
+/-- `clone(recursive=False)` -/
+theorem cloneBare_wf (o : ObjDump) (ho : WF o = true) : WF (cloneBare o) = true :=
+  bare_wf _ (bodyOk_false_of ((wf_iff o).1 ho).1)
+
+theorem insertDerivs_ok_wf (l : List (String × ObjDump)) (p : ObjDump) (ov : Bool) (r : ObjDump)
+    (hp : WF p = true) (hl : ∀ kd ∈ l, WF kd.2 = true)
+    (h : (match insertDerivs p l ov with | (r, true) => some r | (_, false) => none) = some r) : WF r = true := by
+  cases hr : insertDerivs p l ov with
+  | mk r' ok =>
+    rw [hr] at h
+    cases ok with
+    | false => cases h
+    | true => cases h; exact (insertDerivs_wf l p ov _ true hp hl hr).1
+
+/-- `clone(recursive, preserve)` (qube.py:968-1020) -/
+theorem clone_wf (o : ObjDump) (recursive : Bool) (preserve : List String) (r : ObjDump) (ho : WF o = true)
+    (h : clone o recursive preserve = some r) : WF r = true := by
+  unfold clone at h
+  simp only [] at h
+  apply insertDerivs_ok_wf _ (cloneBare o) true r (cloneBare_wf o ho) ?_ h
+  intro kd hkd
+  simp only [List.mem_map] at hkd
+  obtain ⟨d, hdm, rfl⟩ := hkd
+  have hd : d ∈ o.derivs := by
+    split at hdm
+    · exact hdm
+    · exact (List.mem_filter.1 hdm).1
+  exact cloneBare_wf _ ((wf_derivs ho).1 d hd).2.2.2.2.2.2
+
+/-- `without_deriv(key)` (repaired: the copy loses the dictionary entry AND the attribute) -/
+theorem withoutDeriv_wf (o : ObjDump) (key : String) (r : ObjDump) (ho : WF o = true)
+    (h : withoutDeriv o key = some r) : WF r = true := by
+  unfold withoutDeriv at h
+  split at h
+  · cases h; exact ho
+  · split at h
+    · cases h
+    · rename_i c hc
+      exact deleteDeriv_wf c key true r (clone_wf o true [] c ho hc) h
 
 /-! ### every object produced by any list of operations -/
 
